@@ -240,7 +240,11 @@ impl<H: DnsHandle> DnssecDnsHandle<H> {
             RrsigVerificationOutcome::Insecure | RrsigVerificationOutcome::Bogus => false,
         });
 
-        if !authorities.is_empty()
+        // (A wildcard-expanded answer that validated as Secure comes from a signed zone: the proof
+        // that no closer match exists has to be authenticated even if the records of the authority
+        // section could be passed off as insecure, e.g. below a trust anchor for an island.)
+        if !must_validate_nsec
+            && !authorities.is_empty()
             && authorities.iter().all(|(_, rrset)| {
                 rrset.records.iter().all(|x| x.proof == Proof::Insecure)
                     && rrset.signatures.iter().all(|x| x.proof == Proof::Insecure)
